@@ -41,8 +41,12 @@ func hostileMembers(cfg gen.Config) []member {
 			{Kind: "object", Props: []*fam.Prop{{Label: "a", Spec: &fam.Spec{Kind: "string"}}}}, {Kind: "object", Props: []*fam.Prop{{Label: "p", Spec: bad()}}}}}})
 		// ... as a property of a node that ALSO carries allOf / anyOf (the struct built from the properties is superseded by the
 		// composition, the properties are still part of the schema)
-		objA := func() *fam.Spec { return &fam.Spec{Kind: "object", Props: []*fam.Prop{{Label: "a", Spec: &fam.Spec{Kind: "string"}}}} }
-		objB := func() *fam.Spec { return &fam.Spec{Kind: "object", Props: []*fam.Prop{{Label: "b", Spec: &fam.Spec{Kind: "integer"}}}} }
+		objA := func() *fam.Spec {
+			return &fam.Spec{Kind: "object", Props: []*fam.Prop{{Label: "a", Spec: &fam.Spec{Kind: "string"}}}}
+		}
+		objB := func() *fam.Spec {
+			return &fam.Spec{Kind: "object", Props: []*fam.Prop{{Label: "b", Spec: &fam.Spec{Kind: "integer"}}}}
+		}
 		out = append(out, member{name: k + " as a property next to allOf", cfg: cfg, root: &fam.Spec{Kind: "object", Props: []*fam.Prop{{Label: "p", Spec: bad()}}, AllOf: []*fam.Spec{objA(), objB()}}})
 		dn := &fam.Spec{Kind: "object", Ref: "$defs", Props: []*fam.Prop{{Label: "p", Spec: bad()}}, AnyOf: []*fam.Spec{objA(), objB()}}
 		out = append(out, member{name: k + " as a property next to anyOf in a definition", cfg: cfg, root: &fam.Spec{Kind: "object", Props: []*fam.Prop{{Label: "r", Spec: dn}}}})
